@@ -423,6 +423,7 @@ def Expr.lineFreeE : Expr → Prop
   | .selOr e _ _ _ d _ _ b a => e.lineFreeE ∧ d.lineFreeE ∧ lineFree b ∧ lineFree a
   | .lam _ _ _ _ body b a => body.lineFreeE ∧ lineFree b ∧ lineFree a
   | .un _ e _ _ b a => e.lineFreeE ∧ lineFree b ∧ lineFree a
+  | .bin _ l r _ _ b a => l.lineFreeE ∧ r.lineFreeE ∧ lineFree b ∧ lineFree a
 def allLineFree : List Expr → Prop
   | [] => True
   | e :: rest => e.lineFreeE ∧ allLineFree rest
@@ -486,6 +487,7 @@ theorem lineFreeE_after {e : Expr} (h : e.lineFreeE) : lineFree e.after := by
   | selOr e ats g ab d dg db b a => exact h.2.2.2
   | lam n c g k bd b a => exact h.2.2
   | un o e g bt b a => exact h.2.2
+  | bin o l r x y b a => exact h.2.2.2
 
 mutual
 theorem lexOut_noLine : (e : Expr) → e.ok → e.lineFreeE → ∀ na, noLineL (e.lexOut na)
@@ -576,6 +578,11 @@ theorem lexOut_noLine : (e : Expr) → e.ok → e.lineFreeE → ∀ na, noLineL 
     simp only [Expr.lexOut]
     exact noLineL_append.mpr ⟨noLineL_append.mpr ⟨noLineL_append.mpr ⟨noLineL_cm hok.2.2.2.1 hf.2.1, noLineL_tok _⟩,
       lexOut_noLine e hok.2.1 hf.1 false⟩, noLineL_ite _ noLineL_nil (noLineL_cm hok.2.2.2.2 hf.2.2)⟩
+  | .bin op l r x y b a, hok, hf, na => by
+    simp only [Expr.lexOut]
+    exact noLineL_append.mpr ⟨noLineL_append.mpr ⟨noLineL_append.mpr ⟨noLineL_append.mpr
+      ⟨noLineL_cm hok.2.2.2.1 hf.2.2.1, lexOut_noLine l hok.2.1 hf.1 false⟩, noLineL_tok _⟩,
+      lexOut_noLine r hok.2.2.1 hf.2.1 false⟩, noLineL_ite _ noLineL_nil (noLineL_cm hok.2.2.2.2 hf.2.2.2)⟩
 theorem lexOutAll_noLine : (es : List Expr) → allOk es → allLineFree es → noLineL (lexOutAll es)
   | [], _, _ => noLineL_nil
   | e :: rest, hok, hf => by
@@ -640,6 +647,8 @@ def Expr.mlSafe : Expr → Prop
   -- the body of a lambda carries no trailing trivia of its own
   | .lam _ _ _ _ body _ _ => body.mlSafe ∧ body.notBinding = true ∧ body.after = []
   | .un _ e _ _ _ _ => e.mlSafe ∧ e.notBinding = true ∧ e.after = []
+  | .bin _ l r _ _ _ _ =>
+    l.mlSafe ∧ r.mlSafe ∧ l.notBinding = true ∧ r.notBinding = true ∧ l.after = [] ∧ r.after = []
 def allMlSafe : List Expr → Prop
   | [] => True
   | e :: rest => e.mlSafe ∧ allMlSafe rest
@@ -823,6 +832,7 @@ theorem rebuildAP_after_nil {e : Expr} (h : e.after = []) (i : Nat) (b : Bool) :
   | selOr e ats g ab d dg db bf af => simp only [Expr.after] at h; subst h; simp [Expr.rebuildAP]
   | lam n c g k bd bf af => simp only [Expr.after] at h; subst h; simp [Expr.rebuildAP]
   | un o e g bt bf af => simp only [Expr.after] at h; subst h; simp [Expr.rebuildAP]
+  | bin o l r x y bf af => simp only [Expr.after] at h; subst h; simp [Expr.rebuildAP]
 
 /-- the argument of a call / the body of a `with` is rendered last and carries no trailing trivia -/
 def Expr.tailOk : Expr → Prop
@@ -832,6 +842,7 @@ def Expr.tailOk : Expr → Prop
   | .selOr _ _ _ _ x _ _ _ _ => x.after = [] ∧ x.notBinding = true ∧ x.tailOk
   | .lam _ _ _ _ x _ _ => x.after = [] ∧ x.notBinding = true ∧ x.tailOk
   | .un _ x _ _ _ _ => x.after = [] ∧ x.notBinding = true ∧ x.tailOk
+  | .bin _ _ x _ _ _ _ => x.after = [] ∧ x.notBinding = true ∧ x.tailOk
   | _ => True
 
 theorem mlSafe_tailOk : (e : Expr) → e.mlSafe → e.tailOk
@@ -847,6 +858,7 @@ theorem mlSafe_tailOk : (e : Expr) → e.mlSafe → e.tailOk
   | .selOr _ _ _ _ x _ _ _ _, h => ⟨h.2.2.2.2.2, h.2.2.2.1, mlSafe_tailOk x h.2.1⟩
   | .lam _ _ _ _ x _ _, h => ⟨h.2.2, h.2.1, mlSafe_tailOk x h.1⟩
   | .un _ x _ _ _ _, h => ⟨h.2.2, h.2.1, mlSafe_tailOk x h.1⟩
+  | .bin _ _ x _ _ _ _, h => ⟨h.2.2.2.2.2, h.2.2.2.1, mlSafe_tailOk x h.2.1⟩
 
 theorem attrP_endsTok : ∀ (attrs : List Text), attrs ≠ [] → (∀ x ∈ attrs, solidT x) →
     ∃ t, EndsTok (attrP attrs) t ∧ solidT t
@@ -968,6 +980,27 @@ theorem noAfter_ends_tok : (e : Expr) → e.ok → e.tailOk → e.notBinding = t
     simp only [Expr.rebuildAP, addTriviaP, if_true, trailP_nil]
     exact ⟨t, endsTok_append_nil (endsTok_append _ (endsTok_append _ ht)), hst⟩
 
+  | .bin op l r x y bf af, hok, hml, _, i, b => by
+    obtain ⟨hxa, hxnb, hxm⟩ := hml
+    have key : ∀ (j : Nat) (bb : Bool), ∃ t, EndsTok (r.rebuildAP false j bb) t ∧ solidT t := by
+      intro j bb
+      obtain ⟨t, ht, hst⟩ := noAfter_ends_tok r hok.2.2.1 hxm hxnb j bb
+      rw [← rebuildAP_after_nil hxa] at ht
+      exact ⟨t, ht, hst⟩
+    obtain ⟨w1, w2, R, hsh, hR⟩ := binCoreP_shape (l.rebuildAP false i true)
+      (FP.ws (spaces (ensureIndentPad (concat (r.rebuildAP false (binRightIndent op r i) r.before.isEmpty))
+        (binRightIndent op r i))) :: r.rebuildAP false (binRightIndent op r i) r.before.isEmpty)
+      (r.rebuildAP false i true) op x y i
+    have hE : ∃ t, EndsTok R t ∧ solidT t := by
+      rcases hR with h | h <;> subst h
+      · obtain ⟨t, ht, hst⟩ := key (binRightIndent op r i) r.before.isEmpty
+        exact ⟨t, endsTok_cons _ ht, hst⟩
+      · exact key _ _
+    obtain ⟨t, ht, hst⟩ := hE
+    simp only [Expr.rebuildAP, addTriviaP, if_true, trailP_nil]
+    rw [hsh]
+    exact ⟨t, endsTok_append_nil (endsTok_append _ (endsTok_append _ (endsTok_cons _ (endsTok_cons _ (endsTok_cons _ ht))))), hst⟩
+
 /-- the trailing trivia are rendered last -/
 theorem rebuildAP_split {e : Expr} (hna : e.isAsrtE = false) (hnb : e.notBinding = true) (i : Nat) (b : Bool) :
     e.rebuildAP false i b = e.rebuildAP true i b ++ trailP e.after i := by
@@ -993,6 +1026,7 @@ theorem rebuildAP_split {e : Expr} (hna : e.isAsrtE = false) (hnb : e.notBinding
   | selOr e ats g ab d dg db bf af => simp [Expr.rebuildAP, addTriviaP, trailP_nil, Expr.after]
   | lam n c g k bd bf af => simp [Expr.rebuildAP, addTriviaP, trailP_nil, Expr.after]
   | un o e g bt bf af => simp [Expr.rebuildAP, addTriviaP, trailP_nil, Expr.after]
+  | bin o l r x y bf af => simp [Expr.rebuildAP, addTriviaP, trailP_nil, Expr.after]
   | asrt c bd x y bf af => cases hna
 
 /-- an expression without trailing trivia ends closed -/
@@ -1033,6 +1067,7 @@ theorem rebuildAP_open {e : Expr} (hok : e.ok) (hml : e.mlSafe) (hnb : e.notBind
     | selOr => cases hA
     | lam => cases hA
     | un => cases hA
+    | bin => cases hA
 
 /-- the comments after the function: safe after a closed state; open afterwards only if the last one
     is a line comment -/
@@ -1433,6 +1468,26 @@ theorem rebuildAP_safe : (e : Expr) → e.ok → e.mlSafe → ∀ (na : Bool) (i
     simp only [List.cons_append, List.nil_append, (ws_then _ _).1]
     rw [safeGo_append, hexpr.1, hexpr.2, Bool.true_and]
     exact ht
+  | .bin op left right ogl rgl before after, hok, hml, na, i, b => by
+    obtain ⟨_, hl, hr, hb, ha⟩ := hok
+    obtain ⟨hlm, hrm, hlnb, hrnb, hla, hra⟩ := hml
+    have ht := (trailP_safe (ite_nil_ok na ha) i).1
+    obtain ⟨w1, w2, R, hsh, hR⟩ := binCoreP_shape (left.rebuildAP false i true)
+      (FP.ws (spaces (ensureIndentPad (concat (right.rebuildAP false (binRightIndent op right i) right.before.isEmpty))
+        (binRightIndent op right i))) :: right.rebuildAP false (binRightIndent op right i) right.before.isEmpty)
+      (right.rebuildAP false i true) op ogl rgl i
+    have hRs : safeGo false R = true ∧ openAfter false R = false := by
+      rcases hR with h | h <;> subst h
+      · simp only [(ws_then _ _).1, (ws_then _ _).2]
+        exact ⟨rebuildAP_safe right hr hrm false _ _, closed_of_after_nil hr hrm hrnb hra _ _⟩
+      · exact ⟨rebuildAP_safe right hr hrm false _ _, closed_of_after_nil hr hrm hrnb hra _ _⟩
+    simp only [Expr.rebuildAP, addTriviaP, List.append_assoc]
+    rw [hsh, (lines_then i hb _).1, (indentP_scan i b _).1]
+    simp only [List.append_assoc]
+    rw [safeGo_append, rebuildAP_safe left hl hlm false i true, closed_of_after_nil hl hlm hlnb hla i true, Bool.true_and]
+    simp only [List.cons_append, (tok_then _ _).1, (ws_then _ _).1]
+    rw [safeGo_append, hRs.1, hRs.2, Bool.true_and]
+    exact ht
 theorem rebuildAllP_safe : (es : List Expr) → allOk es → allMlSafe es → ∀ (i : Nat) (b : Bool),
     ∀ x ∈ rebuildAllP es i b, safeGo false x = true
   | [], _, _, _, _, x, hx => by cases hx
@@ -1454,6 +1509,7 @@ theorem previewP_safe : (e : Expr) → e.ok → e.mlSafe → ∀ (i : Nat) (p : 
   | .selOr .., _, _, i, p, h => by simp [Expr.previewP] at h
   | .lam .., _, _, i, p, h => by simp [Expr.previewP] at h
   | .un .., _, _, i, p, h => by simp [Expr.previewP] at h
+  | .bin .., _, _, i, p, h => by simp [Expr.previewP] at h
   | .list value ml inner before after, hok, hml, i, p, h => by
     obtain ⟨hv, hin, hb, ha⟩ := hok
     refine ⟨[']'], ?_, solidT_lit ']' (by decide), ?_⟩
@@ -1597,6 +1653,7 @@ def Cst.noLineC : Cst → Bool
   | .selOr e c1 _ _ _ c2 _ _ d => e.noLineC && gcNoLine c1 && gcNoLine c2 && d.noLineC
   | .lam _ c1 _ c2 _ b => gcNoLine c1 && gcNoLine c2 && b.noLineC
   | .un _ c _ e => gcNoLine c && e.noLineC
+  | .bin l c1 _ _ c2 _ r => l.noLineC && gcNoLine c1 && gcNoLine c2 && r.noLineC
 def Items.noLineI : Items → Bool
   | .nil => true
   | .cmt _ t rest => !isLineCmt t && rest.noLineI
@@ -1728,6 +1785,16 @@ theorem cst_noLine_of_noNL : (c : Cst) → c.wf = true → containsNL c.flatten 
       simpa [Cst.flatten, flattenGC, List.append_assoc] using hn
     simp only [Cst.noLineC, gcNoLine, List.all_nil, Bool.true_and]
     exact cst_noLine_of_noNL e hew (containsNL_append_false h1).2
+  | .bin l c1 g1 op c2 g2 r, hwf, hn => by
+    simp only [Cst.wf, Bool.and_eq_true, List.isEmpty_iff] at hwf
+    obtain ⟨⟨⟨⟨⟨⟨⟨hlw, hc1⟩, _⟩, _⟩, _⟩, hc2⟩, _⟩, hrw⟩ := hwf
+    subst hc1; subst hc2
+    have h1 : containsNL (l.flatten ++ ((g1 ++ (op ++ g2)) ++ r.flatten)) = false := by
+      simpa [Cst.flatten, flattenGC, List.append_assoc] using hn
+    have a1 := containsNL_append_false h1
+    have a2 := containsNL_append_false a1.2
+    simp only [Cst.noLineC, gcNoLine, List.all_nil, Bool.and_true, Bool.and_eq_true]
+    exact ⟨cst_noLine_of_noNL l hlw a1.1, cst_noLine_of_noNL r hrw a2.2⟩
 theorem items_noLine_of_noNL : (its : Items) → ∀ (m : Mode) (cg : Text), its.wf m cg = true → m ≠ .file →
     containsNL (its.flatten ++ cg) = false → its.noLineI = true
   | .nil, _, _, _, _, _ => rfl
@@ -1823,6 +1890,7 @@ theorem lineFreeE_setBefore {e : Expr} (h : e.lineFreeE) {b : List Trivia} (hb :
   | selOr e ats g ab d dg db b' a => exact ⟨h.1, h.2.1, hb, h.2.2.2⟩
   | lam n c g k bd b' a => exact ⟨h.1, hb, h.2.2⟩
   | un o e g bt b' a => exact ⟨h.1, hb, h.2.2⟩
+  | bin o l r x y b' a => exact ⟨h.1, h.2.1, hb, h.2.2.2⟩
 
 theorem lineFreeE_addAfter {e : Expr} (h : e.lineFreeE) {a : List Trivia} (ha : lineFree a) : (e.addAfter a).lineFreeE := by
   have haa := lineFree_append.mpr ⟨lineFreeE_after h, ha⟩
@@ -1839,6 +1907,7 @@ theorem lineFreeE_addAfter {e : Expr} (h : e.lineFreeE) {a : List Trivia} (ha : 
   | selOr e ats g ab d dg db b a' => exact ⟨h.1, h.2.1, h.2.2.1, haa⟩
   | lam n c g k bd b a' => exact ⟨h.1, h.2.1, haa⟩
   | un o e g bt b a' => exact ⟨h.1, h.2.1, haa⟩
+  | bin o l r x y b a' => exact ⟨h.1, h.2.1, h.2.2.1, haa⟩
 
 theorem mlSafe_setBefore {e : Expr} (h : e.mlSafe) (b : List Trivia) : (e.setBefore b).mlSafe := by
   cases e <;> exact h
@@ -1924,6 +1993,7 @@ theorem lineFreeE_before {e : Expr} (h : e.lineFreeE) : lineFree e.before := by
   | selOr e ats g ab d dg db b a => exact h.2.2.1
   | lam n c g k bd b a => exact h.2.1
   | un o e g bt b a => exact h.2.1
+  | bin o l r x y b a => exact h.2.2.1
 
 theorem binding_inv {n : Text} {c1 c2 c3 : GC} {g1 g2 g3 : Text} {ve b : Expr} {before : List Trivia}
     (h1 : gcOk c1 g1 = true) (h2 : gcOk c2 g2 = true) (h3 : gcOk c3 g3 = true)
@@ -2380,6 +2450,19 @@ theorem cst_parse_inv : (c : Cst) → c.wf = true → ∀ (e : Expr), c.parse = 
     refine ⟨⟨hie.1, hie.2.1, hea⟩, rfl, fun hnl => ?_⟩
     simp only [Cst.noLineC, Bool.and_eq_true] at hnl
     exact ⟨hie.2.2 hnl.2, lineFree_nil, lineFree_nil⟩
+  | .bin l c1 g1 op c2 g2 r, hwf, ex, hp => by
+    simp only [Cst.wf, Bool.and_eq_true, List.isEmpty_iff] at hwf
+    obtain ⟨⟨⟨⟨⟨⟨⟨hlw, hc1⟩, _⟩, _⟩, _⟩, hc2⟩, _⟩, hrw⟩ := hwf
+    subst hc1; subst hc2
+    obtain ⟨le, hpl, _, _, hla, _⟩ := cst_parse_spec false l hlw (fun h => by cases h)
+    obtain ⟨re, hpr, _, _, hra, _⟩ := cst_parse_spec false r hrw (fun h => by cases h)
+    have hil := cst_parse_inv l hlw le hpl
+    have hir := cst_parse_inv r hrw re hpr
+    simp only [Cst.parse, hpl, hpr] at hp
+    injection hp with hp; subst hp
+    refine ⟨⟨hil.1, hir.1, hil.2.1, hir.2.1, hla, hra⟩, rfl, fun hnl => ?_⟩
+    simp only [Cst.noLineC, Bool.and_eq_true] at hnl
+    exact ⟨hil.2.2 hnl.1.1.1, hir.2.2 hnl.2, lineFree_nil, lineFree_nil⟩
 theorem items_parse_inv : (its : Items) → ∀ (m : Mode) (cg : Text) (st st' : SeqSt), its.wf m cg = true →
     its.parseSeq m st = .ok st' → allMlSafe st.items →
     allMlSafe st'.items ∧ (its.noLineI = true → allLineFree st.items → lineFree st.before →
